@@ -41,7 +41,7 @@ P = {
             "Every column name of up to three letters and every row up to the documented limit is encoded and decoded by every conversion function and compared with an independent codec; enumeration makes this a decision per axis.",
             "Range corners are sampled over the product (boundary product + Hypothesis)."),
     "C11": ("model-based stateful PBT + boundary product enumeration", "4 C11",
-            "Every position-taking method is driven with both notations of the same generated position against a grid model; boundary products of iterator bounds are enumerated.",
+            "Every position-taking method is driven with both notations of the same generated position against a grid model (values, and which cell edges carry a border); boundary products of iterator bounds are enumerated.",
             "Growth is exercised to ~1200 rows / 1000 columns; the limits themselves only on the rejecting side."),
     "C12": ("model-based stateful PBT + exhaustive rectangles on small tables", "4 C12",
             "Disjoint rectangle sets (named by any two opposite corners) and subsequent edit histories (writes incl. placeholders, structural edits, tables added after a save, tall tables) are checked against a rectangle model on the open document and after reload.",
